@@ -2763,6 +2763,33 @@ class Binop(Elemwise):
     _parameters = ["left", "right"]
 
     @functools.cached_property
+    def _meta(self):
+        meta = super()._meta
+
+        def dtypes(x):
+            if is_dataframe_like(x):
+                return list(x.dtypes)
+            return [x.dtype] if hasattr(x, "dtype") else []
+
+        if any(dt == object for dt in dtypes(meta)) and any(
+            isinstance(dt, pd.StringDtype)
+            for op in self._args
+            if isinstance(op, Expr)
+            for dt in dtypes(op._meta)
+        ):
+            # Arithmetic on python-backed string arrays without elements returns
+            # object dtype in pandas, with elements it returns the string dtype.
+            try:
+                args = [
+                    meta_nonempty(op._meta) if isinstance(op, Expr) else op
+                    for op in self._args
+                ]
+                meta = make_meta(self.operation(*args, **self._kwargs))
+            except Exception:
+                pass
+        return meta
+
+    @functools.cached_property
     def _broadcastable(self):
         deps = self.dependencies()
         return (
